@@ -942,7 +942,7 @@ def p_C18(ctx):
 
 def p_C15(ctx):
     st = ctx.mc("MC_C15", "MC_C15_quick.cfg" if ctx.quick else "MC_C15_thorough.cfg", timeout=3000)
-    runs = [{"tag": "base"}, {"tag": "k1", "kexp": [1, 1]}, {"tag": "s3", "scale": [3, 1]}, {"tag": "s10", "scale": [1, 10]},
+    runs = [{"tag": "base"}, {"tag": "k1", "kexp": [1, 1]}, {"tag": "s3", "scale": [3, 1]}, {"tag": "s10", "scale": [1, 10]}, {"tag": "s64", "scale": [1, 64]},
             {"tag": "no-nepb", "drop": "nepb"}, {"tag": "no-other", "drop": "other-nonelectric"}]
     def cfg(cs):
         for c in cs:
